@@ -18,7 +18,7 @@ var table = map[string]propSpec{
 	"C06": {Level: "model_checking", Parts: []partSpec{{Name: "sqlite-bfs", Bin: "p:sqlite"}}},
 	"C12": {Level: "exploration", Parts: []partSpec{{Name: "ws-gate", Bin: "p:ws"}, {Name: "ws-output", Bin: "p:ws"}}},
 	"C13": {Level: "model_checking", Parts: []partSpec{{Name: "c13-handlers", Bin: "inst"}, {Name: "ws-stall", Bin: "p:ws"}}},
-	"C14": {Level: "fault_enumeration", Parts: []partSpec{{Name: "sqlite-fault", Bin: "p:sqlite"}, {Name: "sqlite-reopen", Bin: "p:sqlite"}}},
+	"C14": {Level: "fault_enumeration", Parts: []partSpec{{Name: "sqlite-fault", Bin: "p:sqlite"}, {Name: "sqlite-reopen", Bin: "p:sqlite"}, {Name: "sqlite-retry", Bin: "p:sqlite"}}},
 	"C07": {Level: "model_checking", Parts: []partSpec{{Name: "c07-router", Bin: "inst"}}},
 	"C08": {Level: "model_checking", Parts: []partSpec{{Name: "c08-merge", Bin: "inst"}}},
 	"C09": {Level: "model_checking", Parts: []partSpec{{Name: "c09-merge", Bin: "inst"}, {Name: "engine-selfcheck", Bin: "inst"}}},
